@@ -95,7 +95,7 @@ theorem filter_pos_some {o : Option Nat} {i : Nat} (h : o.filter (fun i => 0 < i
     · cases h
 
 /-- `finishName` never panics: `consumed_positions` is as long as `parts`, the `till_in` tweak
-only fires for an index `> 0` (lexer.rs:649), and the prefix loop stays within `1..parts.len()`. -/
+only fires for an index `> 0` (lexer.rs:655), and the prefix loop stays within `1..parts.len()`. -/
 theorem finishName_no_panic (l : Lx) (st : NameSt) (hl : st.positions.length = st.parts.length)
     (s : PanicSite) : finishName l st ≠ .panic s := by
   intro h
